@@ -1,7 +1,7 @@
 //! Ribbit TCP protocol implementation
 
 use crate::error::{ProtocolError, Result};
-use crate::mime_parser::{is_v1_mime_response, parse_v1_mime_to_bpsv};
+use crate::mime_parser::{is_v1_mime_response, parse_v1_mime_response};
 use cascette_formats::CascFormat;
 use cascette_formats::bpsv::BpsvDocument;
 use std::time::Duration;
@@ -66,7 +66,17 @@ impl RibbitClient {
         if is_v1_mime_response(&raw_response) {
             debug!("Detected V1 MIME response, parsing with signature verification");
             // Use the new MIME parser for V1 responses
-            parse_v1_mime_to_bpsv(&raw_response)
+            let parsed = parse_v1_mime_response(&raw_response)?;
+            // Every V1 response ends with the "Checksum:" epilogue. Without it the
+            // connection was closed mid-response and nothing vouches for the data.
+            if parsed.checksum.is_none() {
+                return Err(ProtocolError::Network(std::io::Error::new(
+                    std::io::ErrorKind::UnexpectedEof,
+                    "V1 response ended before the checksum epilogue",
+                )));
+            }
+            BpsvDocument::parse(parsed.data.as_bytes())
+                .map_err(|e| ProtocolError::Parse(format!("BPSV parse error: {e}")))
         } else {
             debug!("Detected V2 text response, parsing directly as BPSV");
             // Parse V2 response directly as BPSV
